@@ -329,6 +329,9 @@ fn run_uni(case: &Value) -> Obs {
     };
     let mut o = Obs::new(json!({"match": matched, "loc": loc, "accepted": accepted, "nv": nv}));
     o.tags.push(format!("kind:uni:{layer}"));
+    if get(case, "hint").as_bool() == Some(true) {
+        o.tags.push("hint:out-of-model".into());
+    }
     if accepted && !matched {
         return o.fail(format!("the value {nv:?} is accepted by {re:?} but the rule does not match"), "unicode-case");
     }
@@ -1061,6 +1064,15 @@ fn gen_tr(rng: &mut Prng) -> Value {
     json!({"kind": "tr", "chain": chain, "vals": vals})
 }
 
+/// Is the text inside the driver's character model?  ASCII is exact; any other char must be a letter that no case mapping changes
+/// (no lower / upper / title case, e.g. Hebrew, CJK): the ASCII stand-ins of to_lowercase / to_uppercase / heck and of the regex
+/// classes treat every non-ASCII char as an uncased letter.
+fn in_model_scope(t: &str) -> bool {
+    t.chars().all(|c| {
+        c.is_ascii() || (c.is_alphabetic() && c.to_lowercase().eq(std::iter::once(c)) && c.to_uppercase().eq(std::iter::once(c)) && !c.is_lowercase() && !c.is_uppercase())
+    })
+}
+
 /// Diff-directed cases (VERIF_HINTS): sizes n-1, n, n+1 at every countable / sizable place of the grammar, hinted strings (also
 /// upper/lower-cased) at every place with free text.  No instantiation claims: the model and the substitution specification
 /// are compared as for every other case.
@@ -1108,13 +1120,32 @@ fn gen_hints(h: &Hints, emit: &mut dyn FnMut(Value)) {
     let plain_in_regex = |t: &str| !t.chars().any(|c| "\\.+*?()|[]{}^$".contains(c));
     let mut strs: Vec<String> = Vec::new();
     for t in &h.strs {
-        // the driver's character model is exact on ASCII and treats every other char as an uncased letter: other hinted text is skipped
-        if t.is_empty() || t.chars().any(|c| !c.is_ascii() && (c.is_lowercase() || c.is_uppercase() || !c.is_alphabetic())) {
+        if t.is_empty() {
             continue;
         }
         let t: String = t.chars().take(64).collect();
+        if !in_model_scope(&t) {
+            // outside the driver's character model (exact on ASCII, every other char an uncased letter): the hinted text is still
+            // exercised, on the implementation alone, as captured value and as host literal of `uni` cases (tag hint:out-of-model)
+            let clean = |x: &str| !x.is_empty() && !x.chars().any(|c| "/.;=?".contains(c));
+            if clean(&t) {
+                for layer in ["path", "host", "header"] {
+                    for (ipc, ihc, ihdc) in [(false, false, false), (true, true, true)] {
+                        for re in ["[^/.;]+", ".+?", "\\w+"] {
+                            for value in [t.clone(), format!("a{t}B"), t.to_uppercase(), t.to_lowercase()] {
+                                if clean(&value) {
+                                    emit(json!({"kind": "uni", "hint": true, "cfg": {"ipc": ipc, "ihc": ihc, "ihdc": ihdc}, "layer": layer,
+                                                "lit": if layer == "host" { t.as_str() } else { "p" }, "req_lit": if layer == "host" { t.as_str() } else { "p" }, "regex": re, "value": value}));
+                                }
+                            }
+                        }
+                    }
+                }
+            }
+            continue;
+        }
         for v in [t.clone(), t.to_uppercase(), t.to_lowercase()] {
-            if !strs.contains(&v) {
+            if in_model_scope(&v) && !strs.contains(&v) {
                 strs.push(v);
             }
         }
